@@ -219,6 +219,12 @@ func (p *Path) run(fr *frame) Value {
 					}
 					fr.symLoops[fr.block]++
 					if fr.symLoops[fr.block] > p.unwindBound() {
+						if p.unwindAssert != "" {
+							p.note(fmt.Sprintf("loop in %s exceeded the unwinding bound %d", fr.fn.String(), p.unwindBound()))
+							id := p.unwindAssert
+							p.unwindAssert = ""
+							p.Assert(id, FalseT)
+						}
 						panic(&abortPath{Kind: "unwind", Msg: fmt.Sprintf("unwinding bound %d exceeded in %s block %d", p.E.Unwind, fr.fn.String(), fr.block.Index)})
 					}
 					taken = p.Branch(c)
